@@ -3,12 +3,20 @@ import common
 from props import system_common
 
 
+def kbd_jobs(rnd):
+    """half of the controller histories: tests that raise KeyboardInterrupt (the worker exits with status 2) are frequent,
+    other faults rare — the stop decision taken while other workers are short of work"""
+    if rnd.random() < 0.5:
+        return {"kbd_p": rnd.choice([0.1, 0.2, 0.3]), "fault_p": 0.01, "mode": rnd.choice(["load", "worksteal", "loadscope", "loadgroup"])}
+    return {}
+
+
 def run(out: common.Outcome):
     system_common.standard_run(
         out, "C11", [("mixed", 1.0)], ["stop", "internal_error", "stuck"],
         nontrivial=lambda r: r["cfg"]["maxfail"] > 0 or bool(r["cfg"]["stops"]),
         rule="all modes with failing tests, --maxfail 0/1/2, tests that set the worker-side stop request, collection errors, crashes after the stop decision; non-trivial = a stop condition is configured",
-        modes=None)
+        modes=None, extra_corr=system_common.ctl_extra(['stop', 'internal_error'], quick_n=500, thorough_n=12000, job_extra=kbd_jobs))
 
 
 replay = system_common.replay
